@@ -11,19 +11,10 @@
 (declare-const lit.true Str)
 (declare-const lit.empty Str)
 
-; codec of message.Mesg{Type, Root, Leaf} (declared here so that the views can decode stored messages;
-; the engine adds the ground instances unjson.i(tojson(a0,a1,a2)) = ai for every message it encodes)
-(declare-fun tojson.message.Mesg (Str Str Str) Bytes)
-(declare-fun unjson.message.Mesg.0 (Bytes) Str)
-(declare-fun unjson.message.Mesg.1 (Bytes) Str)
-(declare-fun unjson.message.Mesg.2 (Bytes) Str)
-
 ; ---- what a client sees of a promise
 (declare-datatypes ((PView 0)) (((mk.pview (pv.id Str) (pv.state Int) (pv.param_headers SMap) (pv.param_data Bytes)
   (pv.value_headers SMap) (pv.value_data Bytes) (pv.timeout Int) (pv.ikc OptStr) (pv.iku OptStr) (pv.tags SMap)
   (pv.created_on OptInt) (pv.completed_on OptInt)))))
-(define-fun hdrs ((b OptBytes)) SMap (ite (is-bnone b) smap.empty (jsonmap (bval b))))
-(define-fun data ((b OptBytes)) Bytes (ite (is-bnone b) bytes.empty (bval b)))
 (define-fun pview.row ((r Row.promises)) PView
   (mk.pview (val (promises.id r)) (ival (promises.state r)) (hdrs (promises.param_headers r)) (data (promises.param_data r))
     (hdrs (promises.value_headers r)) (data (promises.value_data r)) (ival (promises.timeout r))
